@@ -299,13 +299,16 @@ def run_case(case):
     alias = None
     y_call = y
     if sum(case["rs"]) % 6 == 1 and layout not in (1, 2) and g[0] != "box":
+        # (the same object, or - in half of these - another view object of the same memory,
+        # as two slices of one buffer are)
+        asview = (sum(case["rs"]) // 6) % 2 == 1
         if z is not None and lam > 0:
-            kw["x"] = x0 = z
-            alias = "z-is-x"
+            kw["x"] = x0 = (z[...] if asview else z)
+            alias = "z-is-x" + ("-view" if asview else "")
         elif list(yshape) == list(xshape):
             y_call = y.copy()
-            kw["x"] = x0 = y_call
-            alias = "x-is-y"
+            kw["x"] = x0 = (y_call[...] if asview else y_call)
+            alias = "x-is-y" + ("-view" if asview else "")
         if alias:
             sig += "|" + alias
     excluded = (eff == "ConjugateGradient" and proxg is not None) or \
@@ -376,7 +379,7 @@ def run_case(case):
         kw2.update(lamda=lam2)
         for key in ("alpha", "tau", "sigma", "x", "P"):
             kw2.pop(key, None)
-        if alias == "z-is-x":
+        if alias.startswith("z-is-x"):
             kw2["z"] = zv.reshape(z.shape).copy()   # (the caller's z now holds the solution)
         if G is None:
             xref2, cert2 = OPT.solve_composite(Am, yv, g, mu=lam2, z=zv)
